@@ -5,11 +5,11 @@ CONSTANTS
   AsCodedDots = FALSE
   AsCodedNames = FALSE
   MaxLen = 3
-  MaxFiles = 2
-  Alphabet = {65, 98, 46, 32, 42}
+  MaxFiles = 1
+  Alphabet = {65, 98, 46, 32}
 VIEW View
 CONSTRAINT Bound
-INVARIANT Accepted
+PROPERTY Accepted
 INVARIANT UpperLegal
 INVARIANT FoundUnderAnyCase
 INVARIANT ListingOpens
